@@ -70,22 +70,19 @@ def index_after_shrink(fn):
         rel = [s for s, i in shrinks if i & base and c.block in fn.reach_from(s.block) and not _keeps_at_least(fn, fl, s, need if not len_minus else 1)]
         if not rel:
             continue
-        rev = _can_reach(fn, c.block)
-        valid = []
+        # edges on which the collection is known to hold at least `need` elements: crossing one of them discharges the shrink
+        safe = set()
         for t, ti in tests:
-            if not (ti & base) or t.block == c.block:
-                continue
-            r1 = set()
-            for s2 in fn.succs(t.block):
-                r1 |= fn.reach_from(s2, avoid={t.block})
-            r2 = _can_reach(fn, c.block, avoid={t.block})
-            between = r1 & r2
-            if not any(s.block in between for s in rel):
-                valid.append(t.block)
+            if ti & base:
+                safe |= _nonempty_edges(fn, fl, t, need if not len_minus else 1)
+        # pushing an element makes the collection non-empty again
+        grown = set()
+        if (need if not len_minus else 1) <= 1:
+            grown = {g.block for g in calls if re.search(r"::(push|push_back|push_front|insert|push_byte|push_char)$", g.name) and g.args and (_ident(fl, g.args[0]) & base)}
         bad = []
         for s in rel:
             cons = _discr_constraints(fn, fl, s.block)
-            if c.block in _reach_constrained(fn, fl, s.block, set(valid), cons):
+            if c.block in _reach_constrained(fn, fl, s.block, grown - {s.block, c.block}, cons, avoid_edges=safe):
                 bad.append(s)
         if bad:
             out.append({"line": c.line, "what": "index %s of a collection shrunk at line(s) %s without an emptiness test in between" % ("[len-1]" if len_minus else "[%s]" % idx.get("v", "const"), sorted({s.line for s in bad}))})
@@ -157,11 +154,11 @@ def _discr_constraints(fn, fl, block):
     return cons
 
 
-def _reach_constrained(fn, fl, start, avoid, cons):
+def _reach_constrained(fn, fl, start, avoid, cons, avoid_edges=()):
     seen = set()
     st = []
     for s in fn.succs(start):
-        if s not in avoid:
+        if s not in avoid and (start, s) not in avoid_edges:
             seen.add(s); st.append(s)
     while st:
         b = st.pop()
@@ -173,9 +170,94 @@ def _reach_constrained(fn, fl, start, avoid, cons):
                 if v in cons:
                     succs = [t for t, names in sv["edges"].items() if set(names) & cons[v]]
         for s in succs:
-            if s not in seen and s not in avoid:
+            if s not in seen and s not in avoid and (b, s) not in avoid_edges:
                 seen.add(s); st.append(s)
     return seen
+
+
+def _nonempty_edges(fn, fl, t, need):
+    """CFG edges on which the collection tested by call `t` is known to have at least `need` elements"""
+    from .flow import comparisons, bool_switch_edges
+    out = set()
+    nm = t.name
+    if nm.endswith("::is_empty"):
+        if need <= 1:
+            out |= fl.result_edges(t)["bad"]          # is_empty() == false
+        return out
+    if nm.endswith("::len"):
+        for cm in comparisons(fn):
+            for side, other in (("a", "b"), ("b", "a")):
+                if "p" not in cm[side] or "p" in cm[other] or not isinstance(cm[other].get("v"), int):
+                    continue
+                if not any(r[0] == "call" and r[2] == t.block for r in fl.roots(cm[side], stop_named=False, sites=True) if len(r) > 2):
+                    continue
+                e = bool_switch_edges(fn, cm["block"], cm["res"])
+                if not e:
+                    continue
+                te, fe = e
+                k = cm[other]["v"]
+                op = cm["op"] if side == "a" else {"Lt": "Gt", "Le": "Ge", "Gt": "Lt", "Ge": "Le"}.get(cm["op"], cm["op"])
+                # len op k
+                if op == "Gt" and k + 1 >= need: out |= te
+                if op == "Ge" and k >= need: out |= te
+                if op == "Lt" and k >= need: out |= fe
+                if op == "Le" and k + 1 >= need: out |= fe
+                if op == "Eq" and k >= need: out |= te
+                if op == "Ne" and k == 0 and need <= 1: out |= te
+                if op == "Eq" and k == 0 and need <= 1: out |= fe
+        return out
+    # Option-returning probes: first/last/get/split_first ...
+    idx_ok = True
+    if nm.endswith("::get") and len(t.args) > 1:
+        idx_ok = "p" not in t.args[1] and isinstance(t.args[1].get("v"), int) and t.args[1]["v"] + 1 >= need
+    elif need > 1:
+        idx_ok = False
+    if not idx_ok:
+        return out
+    out |= fl.result_edges(t)["good"]                  # matched as Some(..)
+    # compared with a constant Some(..): `x.first() == Some(&b'/')`
+    for c2 in fn.calls():
+        if not c2.is_(r"cmp::PartialEq(<.*>)?>?::(eq|ne)$") or len(c2.args) != 2:
+            continue
+        sides = [any(r[0] == "call" and len(r) > 2 and r[2] == t.block for r in fl.roots(a, stop_named=False, sites=True)) for a in c2.args]
+        if sides[0] == sides[1]:
+            continue
+        other = c2.args[1] if sides[0] else c2.args[0]
+        is_some = False
+        for r in fl.roots(other, stop_named=False):
+            if r[0] == "promoted":
+                pname = "%s::{promoted#%s}" % (fn.name, r[1])
+                # the promoted body is part of the same crate unit
+                pr = getattr(fn, "promoteds", {}).get(pname)
+                if pr is not None and any(rv[0] == "agg" and rv[3] == "Some" for bi, si, pl, rv, ln, mc in pr.assigns()):
+                    is_some = True
+            if r[0] == "const" and isinstance(r[1], str) and r[1].startswith("agg:") and r[1].endswith("::Some"):
+                is_some = True
+        for bi, si, pl, rv, ln, mc in fn.assigns():
+            if rv[0] == "agg" and rv[1] == "adt" and rv[3] == "Some" and "p" in other and any(r[0] == "var" or True for r in ()):
+                pass
+        if not is_some and "p" in other:
+            # a locally built Some(..)
+            seen, work = set(), [other["p"][0]]
+            while work:
+                l = work.pop()
+                if l in seen:
+                    continue
+                seen.add(l)
+                for (b2, s2, k2, p2) in fl.defs.get(l, []):
+                    if k2 == "a":
+                        rv = p2[1]
+                        if rv[0] == "agg" and rv[1] == "adt" and rv[3] == "Some":
+                            is_some = True
+                        elif rv[0] in ("use", "ref"):
+                            src = rv[1] if rv[0] == "use" else {"p": rv[2]}
+                            if "p" in src:
+                                work.append(src["p"][0])
+        if not is_some:
+            continue
+        e = fl.result_edges(c2)
+        out |= e["good"] if c2.name.endswith("::eq") else e["bad"]
+    return out
 
 
 def next_unwraps(fn):
